@@ -272,3 +272,130 @@ where E: Probe + core::fmt::Display + core::str::FromStr<Err = X>, X: ErrProbe {
     let ins_j: Vec<String> = ins.iter().map(|s| jcps(s)).collect();
     o.line(&format!("{{\"op\":\"caprt\",\"def\":{},\"ins\":{},\"ts\":{}}}", def, jlist(&ins_j), jlist(&ts)));
 }
+
+// ------------------------------------------------------------------ iterator drivers (C04, C05, C08)
+fn proj<E: Probe, I: Iterator<Item = E> + Clone>(it: &I) -> String {
+    // the whole abstract state of a handle: what clone().collect() yields
+    match catch(|| it.clone().map(|x| x.decl_index().to_string()).collect::<Vec<String>>()) {
+        Ok(v) => jlist(&v),
+        Err(_) => "[-1]".to_string(),
+    }
+}
+#[derive(Clone, Copy)]
+pub enum ItOp { Next, NextBack, Nth(usize, bool), NthBack(usize, bool) }
+fn op_name(op: ItOp) -> (&'static str, usize, bool, &'static str) {
+    let big = |n: usize| if n == usize::MAX { "max" } else if n == usize::MAX - 1 { "max1" } else { "" };
+    match op {
+        ItOp::Next => ("next", 0, false, ""),
+        ItOp::NextBack => ("next_back", 0, false, ""),
+        ItOp::Nth(n, b) => ("nth", if b { 0 } else { n }, b, big(n)),
+        ItOp::NthBack(n, b) => ("nth_back", if b { 0 } else { n }, b, big(n)),
+    }
+}
+fn apply<E: Probe, I>(it: &mut I, op: ItOp) -> Result<usize, String>
+where I: Iterator<Item = E> + DoubleEndedIterator + ExactSizeIterator + Clone {
+    catch(|| {
+        let r = match op {
+            ItOp::Next => it.next(),
+            ItOp::NextBack => it.next_back(),
+            ItOp::Nth(n, _) => it.nth(n),
+            ItOp::NthBack(n, _) => it.nth_back(n),
+        };
+        r.map(|x| x.decl_index()).unwrap_or(0)
+    })
+}
+fn log_op<E: Probe, I>(o: &mut Out, def: u32, prof: &str, from: i64, h: u32, op: ItOp, r: &Result<usize, String>, it: &I)
+where I: Iterator<Item = E> + DoubleEndedIterator + ExactSizeIterator + Clone {
+    let (name, n, big, bigk) = op_name(op);
+    let (len, lo, hi) = match catch(|| { let sh = it.size_hint(); (it.len() as i64, sh.0 as i64, sh.1.map(|x| x as i64).unwrap_or(-1)) }) {
+        Ok(t) => t, Err(_) => (-1, -1, -1) };
+    o.line(&format!("{{\"op\":\"it\",\"def\":{},\"prof\":\"{}\",\"call\":\"{}\",\"from\":{},\"h\":{},\"n\":{},\"big\":{},\"bigk\":\"{}\",\"res\":{},\"panic\":{},\"len\":{},\"lo\":{},\"hi\":{},\"rest\":{}}}",
+        def, prof, name, from, h, n, jbool(big), bigk, r.as_ref().map(|x| *x as i64).unwrap_or(-1), jbool(r.is_err()), len, lo, hi, proj(it)));
+}
+pub fn it_args(n_enabled: usize) -> Vec<ItOp> {
+    let mut v = vec![ItOp::Next, ItOp::NextBack];
+    for k in 0..=(n_enabled + 1) { v.push(ItOp::Nth(k, false)); v.push(ItOp::NthBack(k, false)); }
+    for k in [usize::MAX - 1, usize::MAX] { v.push(ItOp::Nth(k, true)); v.push(ItOp::NthBack(k, true)); }
+    v
+}
+fn log_new<E: Probe, I>(o: &mut Out, def: u32, prof: &str, h: u32, it: &I)
+where I: Iterator<Item = E> + DoubleEndedIterator + ExactSizeIterator + Clone {
+    let sh = it.size_hint();
+    o.line(&format!("{{\"op\":\"it\",\"def\":{},\"prof\":\"{}\",\"call\":\"new\",\"from\":-1,\"h\":{},\"n\":0,\"big\":false,\"bigk\":\"\",\"res\":0,\"panic\":false,\"len\":{},\"lo\":{},\"hi\":{},\"rest\":{}}}",
+        def, prof, h, it.len(), sh.0, sh.1.map(|x| x as i64).unwrap_or(-1), proj(it)));
+}
+/// every operation sequence up to `depth`: each tree edge = clone the parent state into handle `level`, apply one call
+pub fn iter_dfs<E: Probe, I>(o: &mut Out, def: u32, prof: &str, n_enabled: usize, root: I, depth: usize)
+where I: Iterator<Item = E> + DoubleEndedIterator + ExactSizeIterator + Clone {
+    log_new(o, def, prof, 0, &root);
+    let ops = it_args(n_enabled);
+    fn rec<E: Probe, I>(o: &mut Out, def: u32, prof: &str, ops: &[ItOp], parent: &I, level: u32, left: usize)
+    where I: Iterator<Item = E> + DoubleEndedIterator + ExactSizeIterator + Clone {
+        for op in ops {
+            let mut c = parent.clone();
+            let r = apply(&mut c, *op);
+            log_op(o, def, prof, (level - 1) as i64, level, *op, &r, &c);
+            if left > 1 && r.is_ok() { rec(o, def, prof, ops, &c, level + 1, left - 1); }
+        }
+    }
+    if depth > 0 { rec(o, def, prof, &ops, &root, 1, depth); }
+}
+/// seeded random history with up to 4 live handles, explicit clones/drops and adapter observations
+pub fn iter_random<E: Probe, I>(o: &mut Out, def: u32, prof: &str, n_enabled: usize, mk: &dyn Fn() -> I, steps: usize, seed: u64)
+where I: Iterator<Item = E> + DoubleEndedIterator + ExactSizeIterator + Clone {
+    let mut rng = Rng::new(seed ^ ((def as u64) << 20) ^ 0xabcdef);
+    let mut hs: Vec<Option<I>> = vec![Some(mk()), None, None, None];
+    log_new(o, def, prof, 10, hs[0].as_ref().unwrap());
+    let ops = it_args(n_enabled);
+    for _ in 0..steps {
+        let live: Vec<usize> = (0..4).filter(|i| hs[*i].is_some()).collect();
+        let free: Vec<usize> = (0..4).filter(|i| hs[*i].is_none()).collect();
+        let a = live[rng.below(live.len() as u64) as usize];
+        let choice = rng.below(12);
+        if choice == 0 && !free.is_empty() {
+            let b = free[0];
+            let c = hs[a].as_ref().unwrap().clone();
+            o.line(&format!("{{\"op\":\"it\",\"def\":{},\"prof\":\"{}\",\"call\":\"clone\",\"from\":{},\"h\":{},\"n\":0,\"big\":false,\"bigk\":\"\",\"res\":0,\"panic\":false,\"len\":{},\"lo\":{},\"hi\":{},\"rest\":{}}}",
+                def, prof, 10 + a, 10 + b, c.len(), c.size_hint().0, c.size_hint().1.map(|x| x as i64).unwrap_or(-1), proj(&c)));
+            hs[b] = Some(c);
+        } else if choice == 1 && live.len() > 1 {
+            hs[a] = None;
+            o.line(&format!("{{\"op\":\"it\",\"def\":{},\"prof\":\"{}\",\"call\":\"drop\",\"from\":-1,\"h\":{},\"n\":0,\"big\":false,\"bigk\":\"\",\"res\":0,\"panic\":false,\"len\":0,\"lo\":0,\"hi\":0,\"rest\":[]}}", def, prof, 10 + a));
+        } else if choice == 2 && !free.is_empty() {
+            let b = free[0];
+            let c = mk();
+            log_new(o, def, prof, (10 + b) as u32, &c);
+            hs[b] = Some(c);
+        } else if choice <= 5 {
+            // adapters built on the iterator (observations on a clone; the handle does not move)
+            let it = hs[a].as_ref().unwrap();
+            let kind = rng.below(4);
+            let small = rng.below(n_enabled as u64 + 2) as usize;
+            let (name, n, big): (&str, usize, bool) = match kind {
+                0 => ("skip", if rng.below(5) == 0 { usize::MAX } else { small }, false),
+                1 => ("step_by", small + 1, false),
+                2 => ("rev", 0, false),
+                _ => ("take", small, false),
+            };
+            let big = n > n_enabled + 1;
+            let items = catch(|| {
+                let c = it.clone();
+                let v: Vec<String> = match kind {
+                    0 => c.skip(n).map(|x| x.decl_index().to_string()).collect(),
+                    1 => c.step_by(n).map(|x| x.decl_index().to_string()).collect(),
+                    2 => c.rev().map(|x| x.decl_index().to_string()).collect(),
+                    _ => c.take(n).map(|x| x.decl_index().to_string()).collect(),
+                };
+                v
+            });
+            o.line(&format!("{{\"op\":\"itobs\",\"def\":{},\"prof\":\"{}\",\"call\":\"{}\",\"h\":{},\"n\":{},\"big\":{},\"panic\":{},\"items\":{}}}",
+                def, prof, name, 10 + a, if big { 0 } else { n }, jbool(big), jbool(items.is_err()), items.map(|v| jlist(&v)).unwrap_or("[]".to_string())));
+        } else {
+            let op = ops[rng.below(ops.len() as u64) as usize];
+            let it = hs[a].as_mut().unwrap();
+            let r = apply(it, op);
+            log_op(o, def, prof, -1, (10 + a) as u32, op, &r, &*it);
+            if r.is_err() { break; }
+        }
+    }
+}
